@@ -118,7 +118,12 @@ MONOTONE_DT = ("uniform", "quadratic", "geometric", "geometric-reversed")
 
 def make_time(g):
     rng = np.random.default_rng(g.get("seed", 0))
-    return wl.time_grid(rng, g["family"], g["nt"], g["t_end"])
+    t = wl.time_grid(rng, g["family"], g["nt"], g["t_end"])
+    if g.get("offset"):
+        # clock times: the run starts at a stamp far from zero (serial dates over tau, a continued
+        # history); neighbouring stamps still differ exactly by the library's own step
+        t = t + float(g["offset"])
+    return t
 
 
 def make_schedule(s, nt, p_f, p_i, p_lo):
@@ -353,6 +358,11 @@ def random_sim_desc(rng, tier, single_share=0.75, consistent_only=False, schedul
     if fam in ("geometric", "geometric-reversed"):
         nt = max(nt, 3)
     g = {"family": fam, "nt": nt, "t_end": float(10.0 ** rng.uniform(-3, 1.5)), "seed": int(rng.integers(0, 2**31))}
+    if rng.random() < 0.12:
+        g["offset"] = float(rng.choice([3.0, 90.0, 1e4, 1e6]))
+    if rng.random() < 0.04 and len(nx_choices) > 3:
+        nx = int(rng.choice([1000, 1001, 1500]))  # beyond any size threshold a solver might switch at
+        g["nt"] = nt = min(nt, 12)
     ratio = float(rng.choice([0.01, 0.1, 0.3, 0.5, 0.7, 0.9, 0.99, 0.999, 1.0, float(rng.uniform(0.01, 1))]))
     d = {"cls": cls, "nx": nx, "grid": g, "nx_type": str(rng.choice(["int", "int", "int", "int8", "uint8", "int16", "int32", "int64"]))}
     if cls == "ideal":
